@@ -291,8 +291,29 @@ def _reach_conditions(fi, match):
     can get there: if/elif arms, and the arms that did NOT leave through continue/break/return/raise).
     Returns [(call, condition ast or None when unconditional, [tests on the way])]."""
     found = {}
+    # predicates hoisted into single-assignment locals (`born_here = outer_symbol.is_local()`) are
+    # put back into the tests that use them
+    assigns = {}
+    for n in ast.walk(fi.node):
+        if isinstance(n, ast.Assign) and len(n.targets) == 1 and isinstance(n.targets[0], ast.Name):
+            assigns.setdefault(n.targets[0].id, []).append(n.value)
+    hoisted = {k: v[0] for k, v in assigns.items() if len(v) == 1 and _is_symbol_test(v[0])}
+
+    class _Subst(ast.NodeTransformer):
+        def visit_Name(self, node):
+            if isinstance(node.ctx, ast.Load) and node.id in hoisted:
+                return hoisted[node.id]
+            return node
+
+    def unhoist(t):
+        if not hoisted or not any(isinstance(x, ast.Name) and x.id in hoisted for x in ast.walk(t)):
+            return t
+        import copy
+
+        return _Subst().visit(copy.deepcopy(t))
 
     def conj(conds):
+        conds = [(unhoist(t), pol) for t, pol in conds]
         # tests that do not ask the symbol table (isinstance of the namespace, ...) are left out:
         # they may hold or not for any symbol
         parts = [t if pol else ast.UnaryOp(op=ast.Not(), operand=t) for t, pol in conds if _is_symbol_test(t)]
@@ -343,7 +364,8 @@ def _reach_conditions(fi, match):
         tests = []
         for a in alts:
             for t, _pol in a:
-                if not any(t is x for x in tests):
+                t = unhoist(t)
+                if not any(ast.dump(t) == ast.dump(x) for x in tests):
                     tests.append(t)
         if any(d is None for d in disj) or not disj:
             cond = None
@@ -370,6 +392,13 @@ def _population_predicates(prog):
     for ci in mi.classes.values():
         for fi in ci.methods.values():
             for call, cond, tests in _reach_conditions(fi, lambda c: _is_add_to(c, ("inner_nonlocal_names",))):
+                recv = call.func.value.value
+                if isinstance(recv, ast.Name):
+                    for n in ast.walk(fi.node):
+                        if isinstance(n, ast.Assign) and isinstance(n.value, ast.Call) and any(isinstance(x, ast.Name) and x.id == recv.id for t in n.targets for x in ast.walk(t)):
+                            callee = ast.unparse(n.value.func)
+                            if not callee.endswith(("lookup", "reversed")):
+                                raise AnalysisError(f"C06-R4: {fi.where()} line {call.lineno}: the function whose sets are extended (`{recv.id}`) is handed out by `{callee}(...)`: the condition under which it is chosen lies in that helper, which this rule does not follow")
                 test = cond if cond is not None else ast.Constant(value=True)
                 node = ast.If(test=test, body=[], orelse=[])
                 node.lineno = call.lineno
@@ -457,7 +486,9 @@ def rule_r4(ctx):
         rr.ok(what)
         if attr == "nonlocal_parameters":
             what = f"{ci.name}|{attr}|predicate"
-            test = ast.BoolOp(op=ast.And(), values=list(tests)) if len(tests) > 1 else tests[0]
+            test = getattr(call, "_reach_cond", None)
+            if test is None:
+                test = ast.BoolOp(op=ast.And(), values=list(tests)) if len(tests) > 1 else tests[0]
             wrong = None
             for m in models:
                 v = eval_symbol_pred(test, m)
@@ -491,6 +522,11 @@ def rule_r4(ctx):
                 if not isinstance(lp, ast.For) or not _adds(lp):
                     continue
                 it_txt = ast.unparse(lp.iter)
+                if isinstance(lp.iter, ast.Name):
+                    # the names were collected into a local list first
+                    defs = [n.value for n in ast.walk(fi.node) if isinstance(n, ast.Assign) and len(n.targets) == 1 and isinstance(n.targets[0], ast.Name) and n.targets[0].id == lp.iter.id]
+                    if len(defs) == 1:
+                        it_txt = ast.unparse(defs[0])
                 if any(x in it_txt for x in SRC):
                     name_loops.append((ci, fi, lp, lp))
                 elif isinstance(lp.iter, ast.Call) and isinstance(lp.iter.func, ast.Attribute) and isinstance(lp.iter.func.value, ast.Name) and lp.iter.func.value.id == "self" and not lp.iter.args:
@@ -597,33 +633,16 @@ def rule_r4(ctx):
 
 
 def _set_add_sites(prog, attrs):
-    """Calls `<owner>.<attr>.add(<name>)` in oneliner.namespaces with the If tests that guard them
-    inside the innermost enclosing loop."""
+    """Calls `<owner>.<attr>.add(<name>)` in oneliner.namespaces with the symbol-table tests on the
+    ways that lead to them inside the innermost enclosing loop (hoisted predicates put back)."""
     mi = prog.modules.get("oneliner.namespaces")
     out = []
     for ci in mi.classes.values():
         for fi in ci.methods.values():
-            def walk(stmts, tests):
-                for st in stmts:
-                    if isinstance(st, ast.If):
-                        walk(st.body, tests + [st.test])
-                        walk(st.orelse, tests + [ast.UnaryOp(op=ast.Not(), operand=st.test)])
-                    elif isinstance(st, (ast.For, ast.While)):
-                        walk(st.body, [])
-                        walk(st.orelse, [])
-                    elif isinstance(st, (ast.With, ast.Try)):
-                        for blk in ("body", "orelse", "finalbody"):
-                            walk(getattr(st, blk, []) or [], tests)
-                        for h in getattr(st, "handlers", []):
-                            walk(h.body, tests)
-                    else:
-                        for c in ast.walk(st):
-                            if (
-                                isinstance(c, ast.Call) and isinstance(c.func, ast.Attribute) and c.func.attr == "add"
-                                and isinstance(c.func.value, ast.Attribute) and c.func.value.attr in attrs and len(c.args) == 1
-                            ):
-                                out.append((ci, fi, c, ast.unparse(c.func.value.value), ast.unparse(c.args[0]), [t for t in tests if _is_symbol_test(t)]))
-            walk(fi.node.body, [])
+            for call, _cond, tests in _reach_conditions(fi, lambda c: _is_add_to(c, attrs)):
+                sym_tests = [t for t in tests if _is_symbol_test(t)]
+                call._reach_cond = _cond  # the polarised condition (arms left through continue are negated)
+                out.append((ci, fi, call, ast.unparse(call.func.value.value), ast.unparse(call.args[0]), sym_tests))
     return [x for x in out if x[5]]
 
 
@@ -669,10 +688,9 @@ def rule_r3(ctx):
     root, leaves, glob = T.namespace_leaves()
     models = symbol_models()
     pop_local, pop_if = _pop_implies_local(ctx)
-    try:
-        comp_attrs = [a for a, (o, c) in _comp_registry(ctx).items() if o]
-    except AnalysisError:
-        comp_attrs = []
+    # (when the comprehension wrapper cannot be analysed, membership in its registry would be taken for
+    # an unknown predicate and accuse every load: no verdict instead)
+    comp_attrs = [a for a, (o, c) in _comp_registry(ctx).items() if o]
     for ci in leaves:
         rr.instances += 1
         st = T.namespace_method(ci, "get_assign")
